@@ -96,6 +96,16 @@ func ClassifyChan(v ssa.Value) ChanKind {
 		return ChanKind{Kind: "local", Val: o}
 	}
 	if f := LoadedField(o); f != nil {
+		// timer.C of a timer made by time.NewTimer(d) is time.After(d) with a handle to stop it
+		if f.Name() == "C" && f.Pkg() != nil && f.Pkg().Path() == "time" {
+			if u, ok := o.(*ssa.UnOp); ok {
+				if _, base := FieldOf(u.X); base != nil {
+					if call, isCall := firstOrigin(base).(*ssa.Call); isCall && CalleeName(call) == "time.NewTimer" {
+						return ChanKind{Kind: "time.After", Call: call, Val: o}
+					}
+				}
+			}
+		}
 		return ChanKind{Kind: "field", Field: f, Val: o}
 	}
 	return ChanKind{Kind: "other", Val: o}
